@@ -33,6 +33,9 @@ func runC02(p *core.Program, r *core.Report) {
 	// R7: Execute returns the error of a failed generator from inside its loops over iterators (the local packages, the
 	// types of a package): an iterator that goes on after the loop was left panics instead
 	iteratorProtocol(p, r, "R7", 40)
+	// R8: a generator's error is an error of the run unless it IS one of the two sentinels: both dispatchers return nil
+	// for ErrSkip / ErrIgnore and the error itself for everything else, decided on the error at hand (C07.R5)
+	chainRules(p, r, "R8", "C07", []string{"C07.R5"}, "the dispatchers treat only the sentinels as success and return every other generator error")
 	c02A5(p, r, pl)
 }
 
